@@ -6,7 +6,7 @@
     and transposition axes the code contains now.  scipy's csr_matrix (dense -> CSR; triples ->
     matrix with duplicates summed) and numpy's reshape/transpose are modelled
     (Qib.Embed.EmbedModel) and tied by the correspondence run. *)
-From Qib Require Import Embed.WireProofs Embed.CsrProofs Embed.HeapObs Base.Inst.
+From Qib Require Import Embed.WireProofs Embed.CsrProofs Embed.HeapObs Embed.IdentProofs Base.Inst.
 From Run Require Import GenEmbed.
 Local Open Scope Z_scope.
 
@@ -209,6 +209,50 @@ Proof.
   - intros v Hv. apply (gate_cache_alias_refuted Q V qeqb D inval g q v Hq Hv).
 Qed.
 Print Assumptions C04_stale_or_aliased_register_matrix_refuted.
+
+(** 10. WHAT identifies a field.  The code tests [p.field == f]; class Field defines no __eq__ (checked by the
+    translator: gen/embed.py check_field_identity), so this is object identity - the distinct field ids of the model,
+    also for two Field objects on one lattice object, and a field listed twice is found at its first occurrence
+    (theorem 4, first clause: only the fields listed EARLIER must differ).  Were fields compared through some
+    [key] (a logical equality on particle type / lattice / local dimension), the same loop would give the same wires
+    exactly as long as no listed field shares its key with the particle's field; with two distinct fields on one
+    lattice it resolves the particle of the second to a wire of the first. *)
+Theorem C04_fields_are_compared_by_identity :
+  let code_mp2w := fun fields p =>
+    mp2w_skel gen_mp2w_hit gen_mp2w_skip gen_mp2w_miss fields (fst p) (snd p) gen_mp2w_init in
+  (forall key fields p, (forall f, In f (map fst fields) -> key f = key (fst p) -> f = fst p) ->
+     code_mp2w (rekey key fields) (key (fst p), snd p) = code_mp2w fields p) /\
+  (exists key fields p, fields_ok fields /\ particle_ok fields p /\
+     code_mp2w (rekey key fields) (key (fst p), snd p) <> code_mp2w fields p /\
+     particle_ok fields (0, code_mp2w (rekey key fields) (key (fst p), snd p))).
+Proof.
+  cbv zeta. split.
+  - intros key fields p H. rewrite !gen_mp2w_is_model. apply (mp2w_by_separating key fields p H).
+  - destruct mp2w_coarse_equality_refuted as [key [fields [p [F [P [_ [N W]]]]]]].
+    unfold mp2w_by in N, W. exists key, fields, p. rewrite !gen_mp2w_is_model.
+    split; [exact F|split; [exact P|split; [exact N|exact W]]].
+Qed.
+Print Assumptions C04_fields_are_compared_by_identity.
+
+(** 11. memory layout of the argument of permute_gate_wires.  Theorem 6 is about numpy's default (order='C') reshape,
+    which reads the logical row-major index order whatever the memory layout ([np_mat_to_tensor]; the translator
+    requires the reshape calls without an order argument).  Reading a Fortran-contiguous argument (u.T, u.conj().T,
+    np.asfortranarray(u)) in memory order instead - what order='A' does - is a different function: for the exchange
+    of two wires it returns the argument itself. *)
+Theorem C04_permute_reading_memory_order_refuted :
+  (forall (K : Scalar) (u : BMx K) r c, length r = 2%nat -> length c = 2%nat ->
+     permute_gate_wires_F u [1%nat; 0%nat] r c = u r c) /\
+  (exists (u : BMx ZI) perm, is_perm 2 perm /\
+     dense 2 (permute_gate_wires_F u perm) <> dense 2 (permute_skel gen_permute_axes u perm) /\
+     dense 2 (permute_skel gen_permute_axes u perm)
+     = dense 2 (fun r c => u (gather (invperm perm) r) (gather (invperm perm) c))).
+Proof.
+  split.
+  - intros K u r c Hr Hc. apply permute_fortran_swap_is_identity; assumption.
+  - destruct permute_fortran_refuted as [u [perm [P [N E]]]]. exists u, perm.
+    rewrite gen_permute_is_model. split; [exact P|split; [exact N|exact E]].
+Qed.
+Print Assumptions C04_permute_reading_memory_order_refuted.
 
 (** non-vacuity of 9/9': a controlled gate object (id 0) with target object (id 1); moving the target (GSet [0])
     changes the value the matrix is a function of, and does not change it when the path leads nowhere *)
